@@ -29,14 +29,14 @@ Proof. unfold to_be32. repeat constructor; apply N.mod_lt; lia. Qed.
 (* files shorter than the minimum are rejected with an error *)
 Lemma decode_short icf input : Nlen input < MIN_LEN -> decode icf input = Err ParseBinaryError.
 Proof.
-  intros H. unfold decode, bin_version. destruct (N.ltb_spec (Nlen input) MIN_LEN); [reflexivity|lia].
+  intros H. unfold decode, decode_with, bin_version. destruct (N.ltb_spec (Nlen input) MIN_LEN); [reflexivity|lia].
 Qed.
 
 (* an unsupported version byte after the magic is rejected with NotImplemented *)
 Lemma decode_bad_version icf v rest : v <> 2 -> v <> 3 -> rest <> [] ->
   decode icf (MAGIC_READER ++ [v] ++ rest) = Err NotImplemented.
 Proof.
-  intros H2 H3 Hr. unfold decode, bin_version.
+  intros H2 H3 Hr. unfold decode, decode_with, bin_version.
   destruct rest as [|r0 rest]; [congruence|].
   assert (Nlen (MAGIC_READER ++ [v] ++ r0 :: rest) <? MIN_LEN = false) as ->.
   { apply N.ltb_ge. unfold Nlen, MAGIC_READER, MIN_LEN. cbn [app length]. lia. }
